@@ -273,4 +273,110 @@ theorem stopB_errOpt (eps : K) (P1 P2 : Nat → Vec K N → Vec K N) (x0 : Vec K
   · rename_i h; simp [stopB, h]
   · rename_i h; simp [stopB, h]
 
+
+/-! ### congruence: only the values of the projections at the arguments actually passed matter -/
+
+theorem loop_congr (eps : K) (P1 P2 P1' P2' : Nat → Vec K N → Vec K N) (x0 : Vec K N)
+    (hs : ∀ k, sweep (P1 k) (P2 k) (iterSY P1' P2' x0 k).1 = sweep (P1' k) (P2' k) (iterSY P1' P2' x0 k).1)
+    (r k : Nat) (acc : List (Rec K N)) :
+    loop eps P1 P2 r k (iterSY P1' P2' x0 k).1 acc = loop eps P1' P2' r k (iterSY P1' P2' x0 k).1 acc := by
+  induction r generalizing k acc with
+  | zero => rfl
+  | succ r ih =>
+    have hrec : recOf P1 P2 k (iterSY P1' P2' x0 k).1 = recOf P1' P2' k (iterSY P1' P2' x0 k).1 := by
+      simp only [recOf, hs k]
+    rw [loop_succ, loop_succ, hrec, hs k]
+    have e : (sweep (P1' k) (P2' k) (iterSY P1' P2' x0 k).1).1 = (iterSY P1' P2' x0 (k + 1)).1 := rfl
+    rw [e, ih (k + 1)]
+
+/-- the argument handed to the first / second projection in sweep `k` of the run driven by `P1' P2'` -/
+def arg1 (P1' P2' : Nat → Vec K N → Vec K N) (x0 : Vec K N) (k : Nat) : Vec K N :=
+  (iterSY P1' P2' x0 k).1.x.add (iterSY P1' P2' x0 k).1.p
+def arg2 (P1' P2' : Nat → Vec K N → Vec K N) (x0 : Vec K N) (k : Nat) : Vec K N :=
+  (P1' k (arg1 P1' P2' x0 k)).add (iterSY P1' P2' x0 k).1.q
+
+/-! ### the recorded history is the sequence of iterates -/
+
+theorem loop_recs_exact (eps : K) (P1 P2 : Nat → Vec K N → Vec K N) (x0 : Vec K N) (r k : Nat) (acc : List (Rec K N)) :
+    (loop eps P1 P2 (r + 1) k (iterSY P1 P2 x0 k).1 acc).recs
+      = ((List.range' k ((loop eps P1 P2 (r + 1) k (iterSY P1 P2 x0 k).1 acc).k + 1 - k)).map
+          fun j => recOf P1 P2 j (iterSY P1 P2 x0 j).1).reverse ++ acc := by
+  induction r generalizing k acc with
+  | zero =>
+    rw [loop_succ]
+    simp only [BEq.rfl, Bool.or_true, if_true]
+    simp
+  | succ r ih =>
+    rw [loop_succ]
+    by_cases hc : (stopB eps (recOf P1 P2 k (iterSY P1 P2 x0 k).1).err || r + 1 == 0) = true
+    · rw [if_pos hc]; simp
+    · rw [if_neg hc]
+      have e : (sweep (P1 k) (P2 k) (iterSY P1 P2 x0 k).1).1 = (iterSY P1 P2 x0 (k + 1)).1 := rfl
+      rw [e, ih (k + 1)]
+      have hk := (loop_iter eps P1 P2 x0 r (k + 1) (recOf P1 P2 k (iterSY P1 P2 x0 k).1 :: acc)).1
+      set K' := (loop eps P1 P2 (r + 1) (k + 1) (iterSY P1 P2 x0 (k + 1)).1 (recOf P1 P2 k (iterSY P1 P2 x0 k).1 :: acc)).k
+      have h1 : K' + 1 - k = (K' + 1 - (k + 1)) + 1 := by omega
+      rw [h1, List.range'_succ]
+      simp
+
+/-! ### a genuine projection on ℚ² used by the examples: clipping of the second coordinate at 0 -/
+def clip1 (v : Vec Rat 2) : Vec Rat 2 := Vec.ofFn fun i => if i.val = 1 ∧ v.get i < 0 then 0 else v.get i
+
+theorem clip1_get (v : Vec Rat 2) (i : Fin 2) : (clip1 v).get i = if i.val = 1 ∧ v.get i < 0 then 0 else v.get i := by
+  simp [clip1]
+
+theorem isProj_clip : IsProj (fun v : Vec Rat 2 => 0 ≤ v.get 1) clip1 := by
+  intro u
+  refine ⟨?_, fun z hz => ?_⟩
+  · show 0 ≤ (clip1 u).get 1
+    rw [clip1_get]; split
+    · exact le_refl _
+    · rename_i h; simp at h; exact h
+  · simp only [ip1, sub_get, clip1_get, Fin.sum_univ_two]
+    by_cases h : u.get 1 < 0
+    · simp [h]
+      have : 0 ≤ z.get 1 := hz
+      nlinarith
+    · simp [h]
+
+/-- the trace-preserving set of a gate on the flat HS vector: first row `e0` -/
+def GateFlatFeas (n : Nat) (v : Vec K (n * n)) : Prop :=
+  ∀ k : Fin (n * n), k.val < n → v.get k = if k.val = 0 then 1 else 0
+
+theorem peqGate_get (n : Nat) (v : Vec K (n * n)) (k : Fin (n * n)) :
+    (peqGate v).get k = if k.val = 0 then 1 else if k.val < n then 0 else v.get k := by
+  simp [peqGate, Gate.projEqVar]
+
+theorem ip1_sq_le (u v : Vec K N) : ip1 u v * ip1 u v ≤ ip1 u u * ip1 v v := by
+  have := Finset.sum_mul_sq_le_sq_mul_sq (Finset.univ : Finset (Fin N)) (fun i => u.get i) (fun i => v.get i)
+  simpa [ip1, pow_two] using this
+
+
+/-- projection of ℚ² onto the half plane `v₀ ≤ v₁` (does not commute with the trace-one projection) -/
+def projH (v : Vec Rat 2) : Vec Rat 2 :=
+  if v.get 0 ≤ v.get 1 then v else Vec.ofFn fun _ => (v.get 0 + v.get 1) / 2
+
+theorem isProj_half : IsProj (fun v : Vec Rat 2 => v.get 0 ≤ v.get 1) projH := by
+  intro u
+  unfold projH
+  by_cases h : u.get 0 ≤ u.get 1
+  · rw [if_pos h]
+    exact ⟨h, fun z _ => by simp [ip1]⟩
+  · rw [if_neg h]
+    refine ⟨by simp, fun z hz => ?_⟩
+    simp only [ip1, sub_get, Vec.get_ofFn, Fin.sum_univ_two]
+    have h' : u.get 1 < u.get 0 := not_le.1 h
+    have hz' : z.get 0 ≤ z.get 1 := hz
+    nlinarith
+
+/-- a non-trivial fixed point of the sweep for these two sets (x = (1/2,0), p = (5/2,0), q = (0,−1); total (3,−1)) -/
+def exFix : St Rat 2 := ⟨#v[1/2, 0], #v[5/2, 0], #v[0, -1]⟩
+/-- … and of the other projection order -/
+def exFix' : St Rat 2 := ⟨#v[1/2, 0], #v[0, -1], #v[5/2, 0]⟩
+
+theorem exFix_fixed : (sweep (peqState (n := 2) (1/2 : Rat)) clip1 exFix).1 = exFix :=
+  St.ext' (by decide +kernel) (by decide +kernel) (by decide +kernel)
+theorem exFix'_fixed : (sweep clip1 (peqState (n := 2) (1/2 : Rat)) exFix').1 = exFix' :=
+  St.ext' (by decide +kernel) (by decide +kernel) (by decide +kernel)
+
 end QM.C05
